@@ -19,7 +19,7 @@ abbrev FS (P : Type) := P → Option Bytes
 
 def FS.empty {P : Type} : FS P := fun _ => none
 
-def FS.set {P : Type} [DecidableEq P] (fs : FS P) (p : P) (v : Option Bytes) : FS P :=
+@[noinline] def FS.set {P : Type} [DecidableEq P] (fs : FS P) (p : P) (v : Option Bytes) : FS P :=
   fun q => if q = p then v else fs q
 
 inductive Op (P : Type) where
